@@ -977,6 +977,9 @@ func callBuiltin(caller *frame, callpos token.Pos, fn *ssa.Builtin, args []value
 			if a0, ok := args[0].([]value); ok && cap(a0) > 0 {
 				checkReleased(caller, &a0[:1][0], callpos)
 			}
+			if a1, ok := args[1].([]value); ok && len(a1) > 0 {
+				checkReleased(caller, &a1[0], callpos)
+			}
 		}
 		if s, ok := args[1].(symstr); ok {
 			return append(args[0].([]value), []value(s)...)
